@@ -44,6 +44,18 @@ pub const MANIFEST: &[(&str, &[Sel])] = &[
             Sel::Method("ReplayProtection", "advance_sequence"),
         ],
     ),
+    ("renetcode/src/lib.rs", &[Sel::Const("NETCODE_VERSION_INFO"), Sel::Const("NETCODE_USER_DATA_BYTES")]),
+    (
+        "renetcode/src/serialize.rs",
+        &[
+            Sel::Fn("read_u64"),
+            Sel::Fn("read_u32"),
+            Sel::Fn("read_u16"),
+            Sel::Fn("read_u8"),
+            Sel::Fn("read_bytes"),
+            Sel::Fn("read_i32"),
+        ],
+    ),
     ("renetcode/src/client.rs", &[Sel::Enum("DisconnectReason")]),
     ("renetcode/src/token.rs", &[Sel::Enum("TokenGenerationError")]),
     ("renetcode/src/error.rs", &[Sel::Enum("NetcodeError")]),
@@ -56,6 +68,13 @@ pub const MANIFEST: &[(&str, &[Sel])] = &[
             Sel::Fn("sequence_bytes_required"),
             Sel::Fn("encode_prefix"),
             Sel::Fn("decode_prefix"),
+            Sel::Fn("write_sequence"),
+            Sel::Fn("read_sequence"),
+            Sel::Fn("get_additional_data"),
+            Sel::Struct("ChallengeToken"),
+            Sel::Method("ChallengeToken", "new"),
+            Sel::Method("ChallengeToken", "read"),
+            Sel::Method("ChallengeToken", "write"),
         ],
     ),
     (
